@@ -319,7 +319,7 @@ func c17World(c *explore.Ctx, nNodes int, subs []c17Sub, unsubFirst bool, pubs [
 
 func runC17(c *explore.Ctx) {
 	c.Level = "model_checking"
-	c.Rule = "E2: 3 real in-process brokers, each with the real federation plugin code attached in-package (serf replaced by direct join calls, gRPC by a reliable in-memory transport), one subscriber and one publisher client per node. Every distribution of <=3 (thorough 4) subscriptions from {a, a/#, +, $share/g/a, $share/h/a, $SYS/a} over the nodes (optionally followed by an UNSUBSCRIBE), propagation settled, then the whole publish battery (every origin node x topic {a, a/b, $SYS/a} x {plain, retained, retained-empty}); per publish: forwarded to exactly the nodes with a matching subscription (retained: all peers), once, never back; every matching non-shared subscriber gets it once; each share group gets exactly one copy federation-wide; retained stores of all nodes equal."
+	c.Rule = "E2: 3 real in-process brokers, each with the real federation plugin code attached in-package (serf replaced by direct join calls, gRPC by a reliable in-memory transport), one subscriber and one publisher client per node. Every distribution of <=3 (thorough 4) subscriptions from {a, a/#, +, $share/g/a, $share/h/a, $SYS/a} over the nodes (optionally followed by an UNSUBSCRIBE), propagation settled, then the whole publish battery (every origin node x topic {a, a/b, $SYS/a} x {plain, retained, retained-empty}, incl. an empty retained message for a topic that retains nothing - never set, or cleared before - and a replaced retained message); per publish: forwarded to exactly the nodes with a matching subscription (retained: all peers), once, never back; every matching non-shared subscriber gets it once; each share group gets exactly one copy federation-wide; retained stores of all nodes equal."
 	c.Trusted = []string{"fake serf/gRPC (reliable here); vsched default schedule", "refmqtt"}
 	if rc := replayCase(c); rc != nil {
 		c.Fatal("C17 replay: re-run ./run.sh C17 quick (%v)", rc)
@@ -342,9 +342,12 @@ func runC17(c *explore.Ctx) {
 			pubs = append(pubs, c17Pub{n, t, 0})
 		}
 	}
+	// an empty retained message for a topic nobody retains (first thing, and again after a clear)
+	pubs = append(pubs, c17Pub{0, "a", 2})
 	for n := 0; n < nNodes; n++ {
-		pubs = append(pubs, c17Pub{n, "a", 1}, c17Pub{n, "a", 0}, c17Pub{(n + 1) % nNodes, "a", 2})
+		pubs = append(pubs, c17Pub{n, "a", 1}, c17Pub{n, "a", 0}, c17Pub{(n + 1) % nNodes, "a", 2}, c17Pub{(n + 2) % nNodes, "a", 2})
 	}
+	pubs = append(pubs, c17Pub{1, "a/b", 1}, c17Pub{1, "a/b", 1}, c17Pub{1, "a/b", 2}, c17Pub{1, "a/b", 2})
 	var dists [][]c17Sub
 	var rec func(start int, cur []c17Sub)
 	rec = func(start int, cur []c17Sub) {
